@@ -72,6 +72,15 @@ int x = 1; static int x = 2;
 static int x; int x = 2; int x;
 extern int x; static int x = 3;
 long y = (-9223372036854775807L-1)%-1;
+int big_t[100000000] = {1};
+int big_u[] = {[2000000000] = 1};
+int big_f(void) { int a[] = {[50000000] = 1}; return a[0]; }
+struct { int x[3]; } big_s[] = { [2000000].x[1] = 1 };
+char big_c[3000000000];
+int big_w[44294967296] = {[3 ... 1] = 7};
+long big_l[70000000] = {[69999999] = 1};
+char big_2[65536][65536];
+int big_ok[300000] = {1};
 long y = (-9223372036854775807L-1)%-1L + (-9223372036854775807L-1)/-1L;
 enum { E = (-9223372036854775807L-1) % -1 };
 int y = (-2147483647-1) % -1; int z = (-2147483647-1) / -1;
